@@ -98,7 +98,7 @@ func mkPoint(lon, lat, alt string) (*object.Point, bool) {
 	if lon == "nil" {
 		return nil, true
 	}
-	p, err := object.NewPoint(atof(lon), atof(lat), atof(alt))
+	p, err := argPoint(atof(lon), atof(lat), atof(alt))
 	if err != nil {
 		return nil, false
 	}
